@@ -676,13 +676,20 @@ AcceptWelcome(c, w) ==
     /\ LET g == wl[w].g IN
        /\ cl' = [cl EXCEPT ![c][g] = [@ EXCEPT !.mls = "ok", !.chain = wl[w].chain, !.pend = NoE, !.props = {},
                                               !.past = <<>>, !.consumed = {}, !.sentH = 0, !.sentA = 0,
+                                              \* rollback snapshots of an earlier membership are released (before the fix --
+                                              \* deviation RejoinKeepsSnapshots -- they stayed and a replayed old commit rolled
+                                              \* the returning member back into its old branch)
+                                              !.stored = IF "RejoinKeepsSnapshots" \in Dev THEN @ ELSE {},
                                               \* state Active, rotation obligation, and the record re-synced from the joined group
                                               !.rec = IF @.st = "none" THEN @
                                                       ELSE [@ EXCEPT !.st = "active", !.su = TRUE,
                                                                      !.epoch = EpochOf(g, wl[w].chain), !.data = GS(g, wl[w].chain)]]]
        /\ welc' = [welc EXCEPT ![c][w].st = "accepted"]
        /\ hist' = [hist EXCEPT !.wreset = IF cl[c][g].mls # "none" THEN @ \cup {<<c, g>>} ELSE @]
-    /\ UNCHANGED <<ginfo, ev, proc, msgs, snapq, hyd, withdrawn, wl, pwelc>>
+       /\ IF "RejoinKeepsSnapshots" \in Dev THEN UNCHANGED <<snapq, hyd>>
+          ELSE /\ snapq' = [snapq EXCEPT ![c][g] = <<>>]
+               /\ hyd' = [hyd EXCEPT ![c] = @ \cup {g}]
+    /\ UNCHANGED <<ginfo, ev, proc, msgs, withdrawn, wl, pwelc>>
 
 DeclineWelcome(c, w) ==
     /\ w \in DOMAIN wl /\ WelcOf(c, w) # "none" /\ CanStage(c, w)
@@ -939,6 +946,10 @@ C02_Ex(pr) ==
              \/ (pr /\ PrintT("VIOLATION-DETAIL " \o ToString(<<"C02 winning-branch message not stored valid", c, e, IF k \in DOMAIN msgs[c] THEN msgs[c][k].state ELSE "absent">>)) /\ FALSE)
        /\ (~OnWinner(g, ev[e].parent) /\ ConvergedAt(c, g) /\ k \in DOMAIN msgs[c])
           => \/ msgs[c][k].state \notin {"processed", "created"}
+             \* finding RejoinKeepsOldBranchMessages: a member that comes back through a welcome while it still held the group
+             \* on a branch of its own keeps the messages of that abandoned branch marked valid (nothing invalidates them)
+             \/ /\ "RejoinKeepsOldBranchMessages" \in Dev /\ <<c, g>> \in hist.wreset
+                /\ pr => PrintT(<<"KNOWN-FINDING", "C02", "RejoinKeepsOldBranchMessages", c, e>>)
              \/ (pr /\ PrintT("VIOLATION-DETAIL " \o ToString(<<"C02 losing-branch message left valid", c, e, msgs[c][k].state>>)) /\ FALSE)
 C02_Excused == C02_Ex(TRUE)
 C02_ExcusedQuiet == C02_Ex(FALSE)
